@@ -434,10 +434,10 @@ def djs_reject(data, model, outmask=None, inmask=None, sigma=None,
     if grow > 0:
         rejects = newmask == 0
         if rejects.any():
-            irejects = rejects.nonzero()[0]
-            for k in range(1, grow):
-                newmask[(irejects - k) > 0] = 0
-                newmask[(irejects + k) < (data.shape[0]-1)] = 0
+            irejects = np.flatnonzero(rejects)
+            for k in range(1, grow + 1):
+                newmask.flat[np.maximum(irejects - k, 0)] = 0
+                newmask.flat[np.minimum(irejects + k, newmask.size - 1)] = 0
     if inmask is not None:
         newmask = newmask & inmask
     if sticky:
